@@ -9,6 +9,7 @@ import StsModel.Drv.Queue
 import StsModel.Drv.Wire
 import StsModel.Drv.Path
 import StsModel.Drv.Auth
+import StsModel.Drv.Announce
 namespace Sts.Drv
 
 def main (args : List String) : IO UInt32 :=
@@ -26,6 +27,7 @@ def main (args : List String) : IO UInt32 :=
   | ["wire"] => run wireStep {}
   | ["path"] => run pathStep ()
   | ["auth"] => run authStep Srv.init
+  | ["announce"] => run announceStep ()
   | _ => do
     IO.eprintln "usage: stsdrv <component>   (ranges, stage, logfmt, chunkbin, scan, conf, send, queue, queuep)"
     return 2
